@@ -5,9 +5,9 @@ from props.corecase import file_to_coq, file_nontrivial, shrink_file, cbytes
 
 ID = "C04"
 HARNESS = "c04"
-N_CASES = {"quick": 6, "thorough": 120}
+N_CASES = {"quick": 24, "thorough": 300}
 N_SEARCH = {"quick": 1, "thorough": 2}
-SHARD = 1
+SHARD = 2
 HAS_MODEL_OUT = True
 RULE = ("pairs (data file f, edit f' that adds / deletes / replaces only records tagged with locations no client of "
         "the comparison is mapped to: at declared names, at zone apexes (NS, SOA), at delegations, at NS targets, at "
